@@ -668,14 +668,52 @@ def list_append(ex, state, args, kwargs, sv):
     return VNone
 
 
+def to_alist(ex, state, o):
+    """convert a list object (in place) to the array-list representation"""
+    if o.kind == "alist":
+        return
+    if o.items is None:
+        raise Unsupported("sequence-list to array-list conversion")
+    arr = z3.K(z3.IntSort(), z3.IntVal(0))
+    el = o.elem
+    for i, it in enumerate(o.items):
+        el, t = elem_of_value(it)
+        arr = z3.Store(arr, i, t)
+    o.kind, o.arr, o.n, o.elem, o.items = "alist", arr, z3.IntVal(len(o.items)), el, None
+
+
 def list_extend(ex, state, a, b):
     oa, ob = state.heap[a.oid], ex.obj(state, b)
+    if ob.kind == "alist" or oa.kind == "alist":
+        to_alist(ex, state, oa)
+        if ob.kind != "alist":
+            ob = ob.copy()
+            to_alist(ex, state, ob)
+        k = z3.Int(fresh_name("ext_k"))
+        a_arr, a_n = oa.arr, oa.n
+        # the extended list is a *named* array defined element-wise in the forward direction (triggers on reads of the
+        # old list and of the appended list), so positions of appended elements are found by E-matching
+        new = z3.Array(fresh_name("extended"), z3.IntSort(), z3.IntSort())
+        state.assume(z3.ForAll([k], z3.Implies(z3.And(k >= 0, k < a_n), z3.Select(new, k) == z3.Select(a_arr, k)),
+                               patterns=[z3.Select(a_arr, k), z3.Select(new, k)]))
+        state.assume(z3.ForAll([k], z3.Implies(z3.And(k >= 0, k < ob.n), z3.Select(new, a_n + k) == z3.Select(ob.arr, k)),
+                               patterns=[z3.Select(ob.arr, k)]))
+        oa.arr = new
+        oa.n = simp(a_n + ob.n)
+        oa.elem = oa.elem or ob.elem
+        if oa.elem == "int" and ob.elem:
+            oa.elem = ob.elem
+        return VNone
     if oa.items is not None and ob.items is not None:
         oa.items.extend(ob.items)
     else:
+        was_empty = oa.items == []
         sa, ea = list_to_seq(oa)
         sb, eb = list_to_seq(ob)
-        oa.items, oa.seq, oa.elem = None, z3.Concat(sa, sb), ea
+        if was_empty:
+            oa.items, oa.seq, oa.elem = None, sb, eb
+        else:
+            oa.items, oa.seq, oa.elem = None, z3.Concat(sa, sb), ea
     return VNone
 
 
@@ -1023,6 +1061,24 @@ def b_dict_views(ex, state, args, kwargs, sv):
 def _dv(kind):
     def fn(ex, state, args, kwargs, sv):
         o = ex.obj(state, sv)
+        if o.d is None and kind == "values" and o.sym is not None and o.sym["vtype"].startswith("sym:"):
+            # values() of a symbolic table: some sequence that contains the value of every present key
+            # (position given by a Skolem function); nothing else is assumed about order or multiplicity
+            shape = o.sym["vtype"][4:]
+            sh = ex.reg.shapes.get(shape)
+            el = "sym:" + (sh.heap_base if sh is not None and sh.heap_base else shape)
+            lst = HObj("alist")         # array-list: (Array Int -> Int, length); indexing is a plain select
+            lst.elem = el
+            lst.arr = z3.Array(fresh_name("values"), z3.IntSort(), z3.IntSort())
+            lst.n = z3.Int(fresh_name("values_n"))
+            state.assume(lst.n >= 0)
+            idx = z3.Function(fresh_name("values_idx"), z3.IntSort(), z3.IntSort())
+            k = z3.Int(fresh_name("vk"))
+            has, val = o.sym["has"], o.sym["val"]
+            state.assume(z3.ForAll([k], z3.Implies(z3.Select(has, k), z3.And(
+                idx(k) >= 0, idx(k) < lst.n, z3.Select(lst.arr, idx(k)) == z3.Select(val, k))),
+                patterns=[z3.Select(val, k)]))
+            return state.alloc(lst)
         if o.d is None:
             raise Unsupported("dict.%s on symbolic dict" % kind)
         if kind == "keys":
@@ -1140,3 +1196,6 @@ def lv_remove(ex, state, args, kwargs, sv):
     n = z3.Length(s)
     lv_set(ex, state, sv, z3.Concat(z3.Extract(s, 0, i), z3.Extract(s, i + 1, n - i - 1)))
     return VNone
+
+
+BUILTINS["alist.extend"] = BUILTINS["list.extend"]
